@@ -7,9 +7,9 @@ META = {
             'real scanners/matchers; oracle = no exception, 0<=start<=end<=len for every range, HTML tag '
             'shape/order, match==outward[0], outward strictly nested around pos, inward nested.',
     'bounds': {
-        'quick': 'HTML scan/attributes len<=4, HTML match/balanced len<=3 (any int pos); CSS scan, '
-                 'match/balanced (any int pos), split_value len<=3',
-        'thorough': 'HTML scan/attributes len<=5, HTML matchers len<=4; CSS scan len<=4, CSS matchers len<=4, split_value len<=4',
+        'quick': 'HTML scan/attributes/match/balanced len<=3 (any int pos); CSS scan, match/balanced (any int pos), split_value '
+                 'len<=3; 18 half-typed documents (valid prefix + <=2 free characters)',
+        'thorough': 'HTML scan len<=4, attributes len<=3, HTML matchers len<=4; CSS scan/matchers/split_value len<=4; prefixes + <=3 free characters',
     },
     'outside_claim': ['strings longer than the bound', 'code points >= 128',
                       'mutation of long valid documents (covered structurally by C09/C10 generators)'],
@@ -78,6 +78,9 @@ def mk_html_match(L, lo, hi, xml):
     def h(s: str, pos: int):
         if not in_partition(s, L, lo, hi):
             return 'skip'
+        return check(s, pos)
+
+    def check(s, pos):
         n = len(s)
         m = hm.match(s, pos, opt)
         out = hm.balanced_outward(s, pos, opt)
@@ -124,7 +127,7 @@ def mk_html_match(L, lo, hi, xml):
         return 'twin' if hm.match(s, pos, opt) is not None else True
     wit = [{'s': w, 'pos': p} for (w, p) in [('<a>', 1), ('<br>', 2), ('abc', 0), ('<a/>', 9), ('', -1)]
            if len(w) == L and (not w or lo <= ord(w[0]) < hi)]
-    return {'fn': h, 'twin': twin if lo <= ord('<') < hi and L >= 4 else None, 'witnesses': wit,
+    return {'fn': h, 'twin': twin if lo <= ord('<') < hi and L >= 4 else None, 'witnesses': wit, 'check': check,
             'assumptions': ['s ASCII, len(s)==%d, ord(s[0]) in [%d,%d); pos any integer; xml=%s' % (L, lo, hi, xml)],
             'functions': ['emmet.html_matcher.match', 'balanced_outward', 'balanced_inward', 'get_attributes']}
 
@@ -199,6 +202,9 @@ def mk_css_match(L, lo, hi):
     def h(s: str, pos: int):
         if not in_partition(s, L, lo, hi):
             return 'skip'
+        return check(s, pos)
+
+    def check(s, pos):
         n = len(s)
         m = cm.match(s, pos)
         if m is not None:
@@ -220,7 +226,7 @@ def mk_css_match(L, lo, hi):
         return 'twin' if cm.match(s, pos) is not None else True
     wit = [{'s': w, 'pos': p} for (w, p) in [('', 0), ('a{}', 1), ('a:b', 1), ('a:b;', 2), ('a{b}', 3)]
            if len(w) == L and (not w or lo <= ord(w[0]) < hi)]
-    return {'fn': h, 'twin': twin if lo <= ord('a') < hi and L >= 3 else None, 'witnesses': wit,
+    return {'fn': h, 'twin': twin if lo <= ord('a') < hi and L >= 3 else None, 'witnesses': wit, 'check': check,
             'assumptions': ['s ASCII, len(s)==%d, ord(s[0]) in [%d,%d); pos any integer' % (L, lo, hi)],
             'functions': ['emmet.css_matcher.match', 'balanced_outward', 'balanced_inward', 'inner_range']}
 
@@ -254,11 +260,74 @@ def mk_css_split(L, lo, hi):
             'functions': ['emmet.css_matcher.parse.split_value']}
 
 
+HTML_PREFIXES = ['<style></style><style>', '<script>x</script><script>', '<a b="', '<a><!--', '<a></a><b', "<a href='x'>t</a>",
+                 '<![CDATA[', '<?php ', '<a><br><b>', '<a b=c d>']
+CSS_PREFIXES = ['a{b:c}d{e:', 'a{b:"', '@media (x:', 'a{/*', 'a{b:c;', 'a::b{c:url(', 'a{b{c:d}', 'a:b;c']
+
+
+def mk_html_suffix(pi, n):
+    from emmet import html_matcher as hm
+    head = HTML_PREFIXES[pi]
+    inner = mk_html_match(0, 0, 128, False)['check']
+
+    def h(R: str, pos: int):
+        if len(R) > n:
+            return 'skip'
+        ok = True
+        for c in R:
+            ok = ok & (ord(c) < 128)
+        if not ok:
+            return 'skip'
+        s = head + R
+        r = check_html_tags(s, html_tags(s))
+        if r is not True:
+            return r
+        return inner(s, pos)
+
+    def twin(R: str, pos: int):
+        if len(R) > n:
+            return 'skip'
+        return 'twin' if html_tags(head + R) else True
+    return {'fn': h, 'twin': twin if pi not in (6, 7) else None, 'witnesses': [{'R': '', 'pos': 3}, {'R': '>'[:n], 'pos': 1}],
+            'assumptions': ['document = %r + R, R any ASCII string of <=%d characters; pos any integer' % (head, n)],
+            'functions': ['emmet.html_matcher.scan.scan', 'match', 'balanced_outward', 'balanced_inward']}
+
+
+def mk_css_suffix(pi, n):
+    from emmet.css_matcher import scan
+    head = CSS_PREFIXES[pi]
+    inner = mk_css_match(0, 0, 128)['check']
+
+    def h(R: str, pos: int):
+        if len(R) > n:
+            return 'skip'
+        ok = True
+        for c in R:
+            ok = ok & (ord(c) < 128)
+        if not ok:
+            return 'skip'
+        s = head + R
+        toks = []
+        scan(s, lambda t, a, b, d: toks.append((t, a, b, d)))
+        for (t, a, b, d) in toks:
+            if not rng_ok(a, b, len(s)):
+                return 'range_out_of_bounds'
+        return inner(s, pos)
+
+    def twin(R: str, pos: int):
+        if len(R) > n:
+            return 'skip'
+        return 'twin'
+    return {'fn': h, 'twin': twin, 'witnesses': [{'R': '', 'pos': 3}, {'R': '}'[:n], 'pos': 1}],
+            'assumptions': ['stylesheet = %r + R, R any ASCII string of <=%d characters; pos any integer' % (head, n)],
+            'functions': ['emmet.css_matcher.scan.scan', 'match', 'balanced_outward', 'balanced_inward']}
+
+
 def jobs(tier):
     q = tier == 'quick'
     plan = [
         ('html-scan', 'mk_html_scan', 3 if q else 4, {}),
-        ('html-attrs', 'mk_html_attrs', 3 if q else 4, {}),
+        ('html-attrs', 'mk_html_attrs', 3, {}),
         ('html-match', 'mk_html_match', 3 if q else 4, {'xml': False}),
         ('html-match-xml', 'mk_html_match', 3 if q else 4, {'xml': True}),
         ('css-scan', 'mk_css_scan', 3 if q else 4, {}),
@@ -266,6 +335,12 @@ def jobs(tier):
         ('css-split', 'mk_css_split', 3 if q else 4, {}),
     ]
     out = []
+    for pi in range(len(HTML_PREFIXES)):
+        out.append(Job('C16-b/html-suffix/p%02d' % pi, 'vf.props.c16:mk_html_suffix', dict(pi=pi, n=2 if q else 3), shape='H',
+                       bound='valid prefix + <=%d free chars' % (2 if q else 3), budget=900 if q else 3000, weight=5000))
+    for pi in range(len(CSS_PREFIXES)):
+        out.append(Job('C16-b/css-suffix/p%02d' % pi, 'vf.props.c16:mk_css_suffix', dict(pi=pi, n=2 if q else 3), shape='H',
+                       bound='valid prefix + <=%d free chars' % (2 if q else 3), budget=900 if q else 3000, weight=5000))
     for (tag, mk, n, extra) in plan:
         for (L, lo, hi) in ascii_partitions(n, split_from=3):
             p = dict(L=L, lo=lo, hi=hi)
